@@ -75,6 +75,10 @@ def install_tap():
 
 
 def gen_case(rng, idx):
+    if idx in (2, 3):
+        # the parent program ends right after join(): non-daemon child (idx 2) and daemon child (idx 3; known finding DX)
+        return {'name': f'c20.case{idx}', 'levels': [30] * 300, 'size': 10, 'threshold': 10, 'end': 'return', 'handler_delay': 0,
+                'pause_every': 0, 'variant': 'app', 'daemon': idx == 3}
     if idx == 0 or rng.random() < 0.04:
         # a flood: far more records outstanding than any bound on the number of queued messages one might think of
         n = rng.choice([25000, 40000])
@@ -104,6 +108,28 @@ def gen_case(rng, idx):
 def eff_threshold(c):
     # logging.disable(d) in the parent silences every record of level <= d, whatever the logger's own level
     return max(c['threshold'], c.get('disable', 0) + 1)
+
+
+DX_KEY = 'C20-DX-daemon-process-log-tail-lost-at-exit'
+
+
+def run_app(c):
+    """the application of harness/c20_app.py in its own interpreter: a child logs n records, the parent joins and exits at once"""
+    import subprocess
+    import tempfile
+    d = tempfile.mkdtemp(prefix='c20app')
+    outp = os.path.join(d, 'handled.txt')
+    t0 = time.time()
+    try:
+        p = subprocess.run([sys.executable, os.path.join(os.path.dirname(__file__), '..', 'c20_app.py'), outp,
+                            '1' if c['daemon'] else '0', str(len(c['levels']))], capture_output=True, text=True, timeout=120)
+        rc, err = p.returncode, p.stderr[-300:]
+    except subprocess.TimeoutExpired:
+        rc, err = 'timeout', ''
+    lines = open(outp).read().split('\n')[:-1] if os.path.exists(outp) else []
+    handled = [int(x.split()[1]) for x in lines if x.startswith('rec ')]
+    return {'join': ['returned'] if rc == 0 else ['app-failed', rc, err], 'exitcode': 0 if rc == 0 else None, 'reads': None,
+            'handled': handled, 'elapsed': round(time.time() - t0, 2), 'app': True}
 
 
 def expected(c):
@@ -209,9 +235,11 @@ def oracle(c, o):
     if o['join'] == ['timeout']:
         return (f'join() did not return within {JOIN_LIMIT + 0.005 * n:.0f} s (child exitcode {o["exitcode"]}); {len(o["handled"])} of {len(exp)} '
                 f'expected records were handled')
+    if c['variant'] == 'app' and o['join'] != ['returned']:
+        return f'the application (child joined, result checked, immediate exit) failed: {o["join"]}'
     if o['handled'] != exp:
         missing = [i for i in exp if i not in o['handled']]
-        return (f'the parent handled {len(o["handled"])} records, expected {len(exp)} of the {n} emitted (threshold {c["threshold"]}, logging.disable {c.get("disable", 0)}); '
+        return (('the parent program ended right after join(): ' if c['variant'] == 'app' else '') +f'the parent handled {len(o["handled"])} records, expected {len(exp)} of the {n} emitted (threshold {c["threshold"]}, logging.disable {c.get("disable", 0)}); '
                 f'first missing: {missing[:5]}; in order: {o["handled"] == sorted(o["handled"])}; '
                 f'duplicates: {len(o["handled"]) != len(set(o["handled"]))}')
     if c['variant'] == 'direct':
@@ -260,7 +288,7 @@ def impl_main(argv):
             if i >= len(cases):
                 return
             c = cases[i]
-            if c.get('disable'):
+            if c.get('disable') or c['variant'] == 'app':
                 continue
             try:
                 o = {'direct': run_direct, 'pool': run_pool, 'servlet': run_servlet}[c['variant']](c)
@@ -275,6 +303,13 @@ def impl_main(argv):
     for t in ths:
         t.join()
     for i, c in enumerate(cases):
+        if c['variant'] == 'app':
+            try:
+                o = run_app(c)
+            except BaseException as e:  # noqa
+                o = {'crash': repr(e)[:300], 'join': ['crash'], 'exitcode': None, 'reads': None, 'handled': [], 'elapsed': 0}
+            results[i] = {'cfg': c, 'obs': o, 'oracle': oracle(c, o), 'strategy': 'app-daemon' if c['daemon'] else 'app', 'verdict': 'ok'}
+            continue
         if c.get('disable'):
             logging.disable(c['disable'])
             try:
@@ -319,7 +354,7 @@ ASSUME = [
 def check(tier, seed, replay=None):
     from harness import core
     part = core.Part('procs', 'harness.props.c20', 'gen', 36, 400, 'DriverLog', coq_case,
-                     lambda r: (r['oracle'], None) if r['oracle'] else None,
+                     lambda r: (r['oracle'], DX_KEY if (r['cfg'].get('variant') == 'app' and r['cfg'].get('daemon')) else None) if r['oracle'] else None,
                      lambda r: len(r['cfg']['levels']) >= 30,
                      key=lambda r: json.dumps({k: v for k, v in r['cfg'].items() if k != 'name'}, sort_keys=True),
                      describe=lambda r: {'cfg': {k: (v if k != 'levels' else f'{len(v)} levels') for k, v in r['cfg'].items()},
